@@ -189,9 +189,9 @@ func (g *gen) liveLen(b int) int {
 func (g *gen) op() *Op {
 	r, e := g.r, g.e
 	nv, nd, nb := len(e.views), len(e.dvs), len(e.bufs)
-	w := []int{14, 5, 10, 14, 7, 8, 8, 7, 4, 5, 3, 8, 9, 3, 4, 2, 2, 3, 9, 3}
+	w := []int{14, 5, 10, 14, 7, 8, 8, 7, 4, 5, 3, 8, 9, 3, 4, 2, 2, 3, 9, 3, 8}
 	if nv == 0 {
-		w = []int{30, 8, 0, 0, 0, 0, 0, 0, 0, 0, 0, 0, 0, 2, 2, 1, 0, 0, 0, 0}
+		w = []int{30, 8, 0, 0, 0, 0, 0, 0, 0, 0, 0, 0, 0, 2, 2, 1, 0, 0, 0, 0, 0}
 	} else if nv > 12 {
 		w[0], w[8], w[9], w[19] = 1, 1, 1, 0
 	}
@@ -381,6 +381,29 @@ func (g *gen) op() *Op {
 		return &Op{O: "lens", V: r.Intn(nv)}
 	case 17:
 		return &Op{O: "sort", V: r.Intn(nv)}
+	case 20: // the Go owner exports a typed-array view and reads it / writes through it
+		v := r.Intn(nv)
+		for i := 0; i < 4; i++ { // prefer multi-byte kinds at a non-zero byteOffset
+			if e.views[v].off > 0 && esize[e.views[v].kind] > 1 {
+				break
+			}
+			v = r.Intn(nv)
+		}
+		vm := e.views[v]
+		if e.bufs[vm.buf].ab.Detached() {
+			return nil // open finding C17-N10: Export() of a view on a detached buffer (corpus only)
+		}
+		o := &Op{O: "goexport", V: v, K: vm.kind, Via: r.Intn(2)}
+		if r.Chance(55) {
+			o.O = "goexportwrite"
+			o.I = r.Intn(vm.length + 1)
+			u := r.U64()
+			if esize[vm.kind] < 8 {
+				u &= 1<<(8*uint(esize[vm.kind])) - 1
+			}
+			o.Raw = fmt.Sprint(u)
+		}
+		return o
 	case 19: // new T(typedArray)
 		sv := r.Intn(nv)
 		k := r.Intn(11)
@@ -396,7 +419,19 @@ func (g *gen) op() *Op {
 		vm := e.views[v]
 		o := &Op{O: []string{"includes", "indexof", "lastindexof"}[r.Intn(3)], V: v, K: vm.kind}
 		var x VArg
+		nb, okN := g.neighbourAt(vm, []int{-1, vm.length}[r.Intn(2)])
 		switch {
+		case r.Chance(30) && okN: // the element just in FRONT of / BEHIND the view (buffer bytes or slab canaries):
+			// a read outside the view would find it
+			x = nb
+			o.Val = &x
+			f := []float64{-float64(vm.length + 1), -float64(vm.length + 2), -2147483649, -9223372036854775808, math.Inf(-1),
+				float64(vm.length), float64(vm.length + 1), 4294967296, math.Inf(1), -1, 0}[r.Intn(11)]
+			o.A1 = &IArg{N: bitsOf(f)}
+			if o.O == "lastindexof" && r.Chance(30) {
+				o.A1 = nil
+			}
+			return o
 		case r.Chance(55) && vm.length > 0 && !e.bufs[vm.buf].ab.Detached(): // an element that is there
 			x = g.elementAt(vm, r.Intn(vm.length))
 		case r.Chance(12):
@@ -604,4 +639,27 @@ func (g *gen) nanBetweenFloatKinds(sm viewMeta, dk int) bool {
 		}
 	}
 	return false
+}
+
+// neighbourAt decodes the would-be element i (i = -1 or i = length) next to the view from the memory around it:
+// other bytes of the buffer, or the canary bytes of the slab
+func (g *gen) neighbourAt(vm viewMeta, i int) (VArg, bool) {
+	b := g.e.bufs[vm.buf]
+	sz := esize[vm.kind]
+	if b.slab == nil || b.ab.Detached() {
+		return VArg{}, false
+	}
+	pos := guard + vm.off + i*sz
+	if pos < 0 || pos+sz > len(b.slab) {
+		return VArg{}, false
+	}
+	// decode through elementAt on a pseudo view over the slab
+	save := b.mem
+	b.mem = b.slab
+	x := g.elementAt(viewMeta{buf: vm.buf, off: pos, length: 1, kind: vm.kind}, 0)
+	b.mem = save
+	if !x.Big && math.IsNaN(f64FromBits(x.Z)) {
+		return VArg{}, false
+	}
+	return x, true
 }
